@@ -77,6 +77,18 @@ func showSlot(v any) string {
 	return fmt.Sprint(v)
 }
 
+// sparseTag is a second pure mapping function: for some arguments (decided by the argument's value) the result is nil
+// or a value of another kind; the results of a Map view must stay aligned with the elements all the same.
+func sparseTag(v any) any {
+	switch spec.Hash(showSlot(v)) % 4 {
+	case 0:
+		return nil
+	case 1:
+		return "other kind"
+	}
+	return tag(v)
+}
+
 // tag is the pure mapping function used by Map*: it keeps the argument recognisable.
 func tag(v any) any {
 	switch x := v.(type) {
@@ -229,6 +241,22 @@ func (x *c14Run) checkListViews(l at.List, r *rng.R) {
 		x.sameSeq("ForEach"+name, fe, want, nil)
 		x.sameSeq("Map"+name+"s-calls", mlog, want, nil)
 		x.sameSeq("Map"+name+"s-result", listToSlice(mres), want, tag)
+		var mres2 at.List
+		switch t {
+		case at.TypeObject:
+			mres2 = l.MapObjects(func(o at.Object) any { return sparseTag(o) })
+		case at.TypeList:
+			mres2 = l.MapLists(func(o at.List) any { return sparseTag(o) })
+		case at.TypeString:
+			mres2 = l.MapStrings(func(o string) any { return sparseTag(o) })
+		case at.TypeBool:
+			mres2 = l.MapBools(func(o bool) any { return sparseTag(o) })
+		case at.TypeInt:
+			mres2 = l.MapInts(func(o int) any { return sparseTag(o) })
+		case at.TypeFloat:
+			mres2 = l.MapFloats(func(o float64) any { return sparseTag(o) })
+		}
+		x.sameSeq("Map"+name+"s-result(nil and other-kind results)", listToSlice(mres2), want, sparseTag)
 		if fres != nil {
 			x.sameSeq("Filter"+name+"s-calls", flog, want, nil)
 			var keep []obs
@@ -313,6 +341,8 @@ func (x *c14Run) checkListViews(l at.List, r *rng.R) {
 	x.sameSeq("Map-result", listToSlice(mres), all, tag)
 	x.sameSeq("MapValues-calls", mv, all, nil)
 	x.sameSeq("MapValues-result", listToSlice(mvres), all, tag)
+	x.sameSeq("Map-result(nil and other-kind results)", listToSlice(l.Map(func(i int, v any) any { return sparseTag(v) })), all, sparseTag)
+	x.sameSeq("MapValues-result(nil and other-kind results)", listToSlice(l.MapValues(sparseTag)), all, sparseTag)
 	x.sameSeq("Filter-calls", fl, all, nil)
 	var keep []obs
 	for i, w := range all {
@@ -498,6 +528,8 @@ func (x *c14Run) checkObjectViews(o at.Object) {
 	mvres := o.MapValues(func(v any) any { mvlog = append(mvlog, kv{"", v}); return tag(v) })
 	x.sameSet("Object.MapValues-calls", mvlog, all, nil, false)
 	x.sameSet("Object.MapValues-result", objToKV(mvres), all, tag, true)
+	x.sameSet("Object.Map-result(nil and other-kind results)", objToKV(o.Map(func(k string, v any) any { return sparseTag(v) })), all, sparseTag, true)
+	x.sameSet("Object.MapValues-result(nil and other-kind results)", objToKV(o.MapValues(sparseTag)), all, sparseTag, true)
 	for _, t := range typedKinds {
 		if x.bad {
 			return
@@ -529,6 +561,22 @@ func (x *c14Run) checkObjectViews(o at.Object) {
 		x.sameSet("Object.ForEach"+name, fe, want, nil, false)
 		x.sameSet("Object.Map"+name+"s-calls", ml, want, nil, false)
 		x.sameSet("Object.Map"+name+"s-result", objToKV(mres), want, tag, true)
+		var mres2 at.Object
+		switch t {
+		case at.TypeObject:
+			mres2 = o.MapObjects(func(v at.Object) any { return sparseTag(v) })
+		case at.TypeList:
+			mres2 = o.MapLists(func(v at.List) any { return sparseTag(v) })
+		case at.TypeString:
+			mres2 = o.MapStrings(func(v string) any { return sparseTag(v) })
+		case at.TypeBool:
+			mres2 = o.MapBools(func(v bool) any { return sparseTag(v) })
+		case at.TypeInt:
+			mres2 = o.MapInts(func(v int) any { return sparseTag(v) })
+		case at.TypeFloat:
+			mres2 = o.MapFloats(func(v float64) any { return sparseTag(v) })
+		}
+		x.sameSet("Object.Map"+name+"s-result(nil and other-kind results)", objToKV(mres2), want, sparseTag, true)
 	}
 }
 
